@@ -186,6 +186,14 @@ fn main() {
             std::fs::write(&path, out).unwrap();
         }
     }
+    {
+        let sigs = tr::SIGS.lock().unwrap();
+        let text = format!("[\n {}\n]\n", sigs.join(",\n "));
+        let path = format!("{}/signatures.json", out_dir);
+        if std::fs::read_to_string(&path).unwrap_or_default() != text {
+            std::fs::write(&path, text).unwrap();
+        }
+    }
     status.push_str("\n]\n");
     std::fs::write(format!("{}/status.json", out_dir), status).unwrap();
     if failures > 0 {
